@@ -334,6 +334,13 @@ def gen_cli_cases(rng, n):
             files = [ftok(b"r.fa", wrap_text(b"c1", r, rng.choice([60, 80])))]
             for j in range(rng.choice([1, 2, 3])):
                 s = mutate(rng, base, rng.choice([0.005, 0.02, 0.1]), rng.choice([b"X", b"xjo", LETTERS, IUPAC, b"ACGT"]))
+                if rng.random() < 0.5:
+                    # runs of N (4+ are run-length coded by the LZ layer, shorter ones are literals) and of other
+                    # letters inside an LZ-coded sample, followed by sequence that matches the reference again
+                    for _ in range(rng.randint(1, 3)):
+                        q = rng.randrange(len(s) + 1)
+                        run = rng.choice([b"N", b"N", b"N", b"n", b"X", b"R"]) * rng.choice([3, 4, 5, 12, 40, 300])
+                        s = s[:q] + run + s[q:] if rng.random() < 0.5 else s[:q] + run + s[q + len(run):]
                 if rng.random() < 0.3:
                     s = s.lower()
                 files.append(ftok(b"s%d.fa" % j, wrap_text(b"c1", s, rng.choice([1, 60, 100000]), rng.choice([b"\n", b"\r\n"]))
